@@ -3,24 +3,24 @@ P12e/f/g (epoch announcement plumbing), P11g (consumer/producer task lists never
 P10g (the stream scan folds with max), W10c (signal bit constants), S3i (iterator kinds)."""
 import re
 from core import CheckError, short, short_fn
-from engine import has_release
+from engine import has_release, norm_rel, is_const
 from rules_send import FLAVOURS, WRITE_OPS, CAS_OPS
 
 
 def run(ctx):
-    _p12e(ctx)
-    _p12f(ctx)
-    _p12g(ctx)
-    _p12h(ctx)
-    _p12i(ctx)
-    _p1h(ctx)
-    _tagconst(ctx)
-    _p9g(ctx)
-    _p15m(ctx)
-    _p11g(ctx)
-    _p10g(ctx)
-    _w10c(ctx)
-    _s3i(ctx)
+    ctx.step(_p12e, ctx)
+    ctx.step(_p12f, ctx)
+    ctx.step(_p12g, ctx)
+    ctx.step(_p12h, ctx)
+    ctx.step(_p12i, ctx)
+    ctx.step(_p1h, ctx)
+    ctx.step(_tagconst, ctx)
+    ctx.step(_p9g, ctx)
+    ctx.step(_p15m, ctx)
+    ctx.step(_p11g, ctx)
+    ctx.step(_p10g, ctx)
+    ctx.step(_w10c, ctx)
+    ctx.step(_s3i, ctx)
 
 
 def _const_of(g, e):
@@ -46,14 +46,20 @@ def signal_bits(ctx):
     for m in ('get_epoch', 'get_reader'):
         fn = ctx.fn1(r'^atomicsignal::LoadedSignal::%s$' % m)
         g = ctx.graph(fn)
-        r = g.strip(g.ev_local(g.root_inst, 0))
-        c = None
-        if r[0] == 'bin' and r[1] == 'Ne':
-            l = g.strip(r[2])
-            if l[0] == 'bin' and l[1] == 'BitAnd':
-                c = _const_of(g, l[3]) or _const_of(g, l[2])
+        c = _bit_test_const(g, g.ev_local(g.root_inst, 0))
         bits[m] = ('test', c, fn, ctx.F.where(fn))
     return bits
+
+
+def _bit_test_const(g, e):
+    """mask m of a `(x & m) != 0` test in any form (`!((x & m) == 0)`, `0 != x & m`, ...); None otherwise"""
+    nr_ = norm_rel(g, e)
+    if not nr_ or nr_[0] != 'Eq' or nr_[3]:
+        return None
+    for l, z in ((nr_[1], nr_[2]), (nr_[2], nr_[1])):
+        if _const_of(g, z) == '0' and l[0] == 'bin' and l[1] == 'BitAnd':
+            return _const_of(g, l[3]) or _const_of(g, l[2])
+    return None
 
 
 def _w10c(ctx):
@@ -92,12 +98,10 @@ def _p12e(ctx):
                 'update_token does not store the current global epoch with Release (sources %s, arithmetic %s, ordering %s)' % (sorted(src), bool(arith), a.ords), where=g.where(a.nid), sub='value')
     # the store happens whenever the token lags
     eq_edges = set()
-    for sid in x.switches():
-        e = g.strip(g.switch_expr(sid))
-        if e[0] == 'bin' and e[1] in ('Ne', 'Eq'):
-            ls = x.loads_in(e)
-            if any(l.on('MemToken.epoch') for l in ls) and any(l.on('MemoryManager.epoch') for l in ls):
-                eq_edges.update(x.switch_edges(sid, 'zero' if e[1] == 'Ne' else 'nonzero'))
+    for t_ in x.tests(('Eq',)):
+        ls = x.loads_in(t_.a) + x.loads_in(t_.b)
+        if any(l.on('MemToken.epoch') for l in ls) and any(l.on('MemoryManager.epoch') for l in ls):
+            eq_edges.update(t_.true)
     ok = not (x.reachable_entry(blocked={a.nid for a in stores} | eq_edges) & set(g.exits))
     ctx.add('P12e', 'T-MUST', fn, ok, 'the announcement is skipped only when the token already holds the current epoch' if ok else
             'update_token can return without announcing although the token lags behind the global epoch (reclamation would stall)', sub='always')
@@ -171,15 +175,14 @@ def _p12g(ctx):
         g = ctx.graph(r, 'MPMC')
         x = g.x
         sig = {a.nid for a in x.atoms_on('AtomicSignal.flags', ops={'load'})}
-        ep_edges = set()
-        for sid in x.switches():
-            e = g.strip(g.switch_expr(sid))
-            if e[0] == 'bin' and e[1] in ('Ne', 'Eq'):
-                l, rr = g.strip(e[2]), g.strip(e[3])
-                if l[0] == 'bin' and l[1] == 'BitAnd' and _const_of(g, rr) == '0':
-                    m, k = g.strip(l[2]), _const_of(g, l[3])
-                    if k == b['set_epoch'][1] and m[0] == 'call' and x.rep(m[1]) in sig:
-                        ep_edges.update(x.switch_edges(sid, 'nonzero' if e[1] == 'Ne' else 'zero'))
+        def _ep_bit(e_):
+            if e_[0] != 'bin' or e_[1] != 'BitAnd':
+                return False
+            for m, k in ((g.strip(e_[2]), _const_of(g, e_[3])), (g.strip(e_[3]), _const_of(g, e_[2]))):
+                if k == b['set_epoch'][1] and m[0] == 'call' and x.rep(m[1]) in sig:
+                    return True
+            return False
+        _z, ep_edges, _h = x.zero_tests(_ep_bit)
         anns = []
         for n in x.inlined(r'memory::MemoryManager::update_token$'):
             tok = g.ev_local(g.nodes[n].call['inlined'], 2)
@@ -275,11 +278,9 @@ def _p1h(ctx):
         x = g.x
         H = {a.nid for a in _head(x) if a.op == 'load' or a.op in CAS_OPS}
         n = 0
-        for sid in x.switches():
-            e = g.strip(g.switch_expr(sid))
-            if e[0] != 'bin' or e[1] not in ('Eq', 'Ne'):
-                continue
-            for (p_, q_) in ((e[2], e[3]), (e[3], e[2])):
+        for t_ in x.tests(('Eq',)):
+            sid = t_.sid
+            for (p_, q_) in ((t_.a, t_.b), (t_.b, t_.a)):
                 lp = x.loads_in(p_)
                 lq = x.loads_in(q_)
                 if lp and all(a.nid in H for a in lp) and lq and any(a.on('MultiQueue.tail_cache', 'ReaderPos.pos_data') for a in lq) and not any(a.nid in H for a in lq):
@@ -309,10 +310,7 @@ def _tagconst(ctx):
     ri = gi.strip(gi.ev_local(gi.root_inst, 0))
     rr = gr.strip(gr.ev_local(gr.root_inst, 0))
     ind = tagm = None
-    if ri[0] == 'bin' and ri[1] == 'Ne':
-        l = gi.strip(ri[2])
-        if l[0] == 'bin' and l[1] == 'BitAnd':
-            ind = _const_of(gi, l[3]) or _const_of(gi, l[2])
+    ind = _bit_test_const(gi, ri)
     if rr[0] == 'bin' and rr[1] == 'BitAnd':
         tagm = _const_of(gr, rr[3]) or _const_of(gr, rr[2])
     ok = ind is not None and tagm is not None and ind.isdigit() and tagm.isdigit() and int(ind) & int(tagm) == 0 and int(ind) | int(tagm) == 2 ** 64 - 1 and int(ind) == int(tagm) + 1
@@ -331,10 +329,10 @@ def _tagconst(ctx):
     x = rc.x
     POSOBS = {a.nid for a in x.atoms_on('ReaderPos.pos_data') if a.op == 'load' or a.op in CAS_OPS}
     n = 0
-    for sid in x.switches():
-        e = rc.strip(rc.switch_expr(sid))
-        if e[0] == 'bin' and e[1] in ('Eq', 'Ne'):
-            for (p_, q_) in ((e[2], e[3]), (e[3], e[2])):
+    for t_ in x.tests(('Eq',)):
+        sid = t_.sid
+        if True:
+            for (p_, q_) in ((t_.a, t_.b), (t_.b, t_.a)):
                 lp = [a for a in x.loads_in(p_) if a.on('QueueEntry.wraps')]
                 lq = x.loads_in(q_)
                 if lp and lq and all(a.nid in POSOBS for a in lq):
@@ -348,12 +346,12 @@ def _tagconst(ctx):
                     break
     ctx.floor('P3t', n, 2, 'tag tests in try_recv')
     # the pin re-check compares two unmodified observations of the position
-    for sid in x.switches():
-        e = rc.strip(rc.switch_expr(sid))
-        if e[0] == 'bin' and e[1] in ('Eq', 'Ne'):
-            la, lb = x.loads_in(e[2]), x.loads_in(e[3])
+    for t_ in x.tests(('Eq',)):
+        sid = t_.sid
+        if True:
+            la, lb = x.loads_in(t_.a), x.loads_in(t_.b)
             if la and lb and all(a.nid in POSOBS for a in la + lb) and not any(a.on('QueueEntry.wraps') for a in la + lb):
-                arith = [s_ for s_ in rc.walk(e[2]) if s_[0] in ('bin', 'un')] + [s_ for s_ in rc.walk(e[3]) if s_[0] in ('bin', 'un')]
+                arith = [s_ for s_ in rc.walk(t_.a) if s_[0] in ('bin', 'un')] + [s_ for s_ in rc.walk(t_.b) if s_[0] in ('bin', 'un')]
                 ctx.add('P3t', 'T-FLOW', rc.nodes[sid].fn, not arith, 'pin re-check compares two unmodified position observations' if not arith else
                         'pin re-check compares a masked / modified value with the position', where=rc.where(sid), sub='recheck.bb%d' % rc.nodes[sid].bb)
 
@@ -433,26 +431,24 @@ def _p10g(ctx):
     why = 'no max-fold found'
     if x.ext_calls(r'cmp::(max|Ord::max)$|Ord>?::max$|Iterator::max$'):
         ok = True
-    for sid in x.switches():
-        e = g.strip(g.switch_expr(sid))
-        if e[0] == 'bin' and e[1] in ('Gt', 'Lt', 'Ge', 'Le'):
-            a, b_ = g.strip(e[2]), g.strip(e[3])
+    for t_ in x.tests(('Lt',)):
+        sid = t_.sid
+        if True:
+            a, b_ = t_.a, t_.b
 
             def is_dist(z):
                 return z[0] == 'call' and bool({s.nid for s in x.loads_in(z)} & scans) and not (z[0] == 'phi')
 
             def is_acc(z):
                 return z[0] == 'phi' and any(g.strip(t)[0] == 'c' for t in z[1])
-            if is_dist(a) and is_acc(b_):
-                greater = 'nonzero' if e[1] in ('Gt', 'Ge') else 'zero'
-            elif is_acc(a) and is_dist(b_):
-                greater = 'nonzero' if e[1] in ('Lt', 'Le') else 'zero'
+            if is_dist(a) and is_acc(b_):      # dist < acc
+                edges, others = t_.false, t_.true
+            elif is_acc(a) and is_dist(b_):    # acc < dist
+                edges, others = t_.true, t_.false
             else:
                 continue
             dist = a if is_dist(a) else b_
             # on the edge "distance > accumulator" the accumulator takes the distance; on the other edge it is kept
-            edges = x.switch_edges(sid, greater)
-            others = x.switch_edges(sid, 'zero' if greater == 'nonzero' else 'nonzero')
             # find the assignment statements  acc = dist / acc = acc  right after the edges
             takes = set()
             keeps = set()
